@@ -34,6 +34,10 @@ class SpotSys:
         self.api, self.ex, pos = acct.fresh('spot', fee, balance, symbols=(SYM,), price=10 * p)
         self.pos = pos[SYM]
         self.acct = acct
+        if cfg.get('keep_on_close'):
+            # order-level histories without the strategy layer's clean-up: what rests when the holding is sold stays resting
+            from jesse.routes import router
+            router.routes[0].strategy._execute_cancel = lambda: None
         self.objs = []
         self.problems = []
         self.end_reason = ''
@@ -63,6 +67,10 @@ class SpotSys:
                         continue
                     ops.append(('sell', typ, q, pr * p))
         for i in live:
+            if self.cfg.get('keep_on_close') and self.ref[i]['side'] == 'sell' and self.ref[i]['q'] > self.B:
+                # (a resting sell that is no longer covered: its fill is outside what the cash account defines)
+                ops.append(('cancel', i))
+                continue
             ops.append(('exec', i))
             ops.append(('cancel', i))
         return ops
@@ -176,7 +184,7 @@ class SpotSys:
                 self.dust = getattr(self, 'dust', 0) + 1
                 closed = self.pos.is_close
                 self.B = fr(self.ex.assets['BTC']) if not closed else F(0)
-            if closed:
+            if closed and not self.cfg.get('keep_on_close'):
                 # position closed: the strategy layer cancels everything resting
                 for o in self.ref:
                     if o['live']:
@@ -229,6 +237,8 @@ def configs(ctx):
     # sells submitted the way a strategy's raw broker calls (broker.sell_at, sell_at_market, start_profit_at) submit them:
     # NOT reduce-only
     out.append({'fee': 0.001, 'balance': 25 * u * p, 'u': u, 'p': p, 'depth': 4, 'raw': True})
+    # the same histories without the strategy layer's cancel-everything-on-close: resting sells survive a sale of the whole holding
+    out.append({'fee': 0.001, 'balance': 25 * u * p, 'u': u, 'p': p, 'depth': 5, 'keep_on_close': True})
     # a holding of 1.0 with two resting exits of 0.1 and 0.7 (decimal fractions that are inexact in binary), limit and stop ladders
     for typ, pr in (('LIMIT', 11.0), ('STOP', 9.0)):
         out.append({'fee': 0.0, 'balance': 25 * u * p, 'u': u, 'p': p, 'depth': 4,
